@@ -14,6 +14,7 @@ import (
 
 func c17Gen(rt *rapid.T) e4Case {
 	c := e4Case{Cfg: e4GenConfig(rt)}
+	c.Cfg.StateHandle = rapid.IntRange(0, 3).Draw(rt, "stateHandle") == 0
 	type raw struct{ Kind, QoS, Extra int }
 	raws := rapid.SliceOfN(rapid.Custom(func(rt *rapid.T) raw {
 		return raw{rapid.IntRange(0, 9).Draw(rt, "kind"), rapid.IntRange(0, 2).Draw(rt, "qos"), rapid.SampledFrom([]int{0, 0, 20, 200, 1000}).Draw(rt, "extra")}
